@@ -1,3 +1,8 @@
+import IrefVerif.Oracle
+import IrefVerif.Lemmas.ParentSegs
+import IrefVerif.Lemmas.BaseModel
+import IrefVerif.Lemmas.RemoveDots
+import IrefVerif.Lemmas.PopList
 import IrefVerif.Lemmas.Deque
 import IrefVerif.Spec.Path
 import IrefVerif.Lemmas.SegSched
@@ -106,5 +111,45 @@ example : runSched [0x2F, 0x61, 0x2F, 0x2F, 0x62] (Path.segments [0x2F, 0x61, 0x
 
 example : scheduleRem [[0x61], [], [0x62]] [true, false, false, true] =
     ([some [0x61], some [0x62], some [], none], []) := by decide
+
+/-! ## the path queries, from the split -/
+
+/-- `segment_count()` is the length of the `/`-split -/
+theorem segment_count_model (p : Text) (hp : PathText p) : (Path.segmentList p).length = (segs p).length := by
+  rw [segmentList_eq_segs p hp]
+
+/-- `file_name()` is the last piece unless it is empty -/
+theorem file_name_model (p : Text) (hp : PathText p) : Path.file_name p = Oracle.fileName p := by
+  unfold Path.file_name Oracle.fileName
+  rw [next_back_last, last_eq_getLast p hp]
+  cases (segs p).getLast? <;> rfl
+
+/-- `first()` is the first piece -/
+theorem first_model (p : Text) (hp : PathText p) : Path.first p = (segs p).head? := by
+  rw [← segmentList_eq_segs p hp]
+  unfold Path.first Path.segmentList Path.segments
+  by_cases hem : Path.is_empty p = true
+  · simp [hem, Path.Segments.collect, Path.Segments.next]
+  · have hem' : Path.is_empty p = false := by simpa using hem
+    simp only [hem', Bool.false_eq_true, if_false]
+    have hlt : Path.first_segment_offset p < p.length + 1 := by
+      unfold Path.first_segment_offset
+      split
+      · cases p with
+        | nil => simp [Path.is_empty] at hem'
+        | cons c r => simp
+      · omega
+    have hle : Path.first_segment_offset p ≤ p.length := by omega
+    simp [Path.Segments.collect, Path.Segments.next, hlt, Path.next_segment_from, hle]
+
+/-- `directory()` is the text up to and including the last `/` -/
+theorem directory_model (p : Text) : Path.directory p = upToLastSlash p := Lemmas.directory_eq p
+
+/-- `parent_or_empty()` of an absolute path: its literal segments are the path's without the last,
+behind at most one `.` shield (`//a` → `/./`), and it is absolute -/
+theorem parent_or_empty_model (q : Text) :
+    (∃ k, segs (Path.parent_or_empty (cSlash :: q)) = List.replicate k segDot ++ (segs (cSlash :: q)).dropLast) ∧
+      isAbs (Path.parent_or_empty (cSlash :: q)) = true :=
+  ⟨(Lemmas.parent_segs q).1, (Lemmas.parent_segs q).2.1⟩
 
 end IrefVerif.Props.C12
